@@ -2221,3 +2221,46 @@ def r7_17_translation_amount_unchanged(ck, P, rid='C07-R17'):
                     ck.violation(R, f.name, 'translation amount rewritten (%s)' % _w(u), '%s adds to an %s coordinate at %s a value (%s) that is not its %s parameter itself: the amount has been clamped or recomputed on the way, so the region is moved by something else than the caller asked for (for a 16-bit region a shift of 40000 clamped to 32767 leaves rectangles 7233 columns short of where they belong)' % (f.name, axis, x.loc(), y.op if y is not None else 'constant', axis), x.loc())
     if n == 0:
         raise AnalysisBroken('%s: no sum of a box coordinate and a translation amount found' % rid)
+
+
+def r7_19_bitmap_read_only_with_pixels(ck, P, rid='C07-R19'):
+    """T-GRD: the bitmap import looks at the first word of each row before its column loop; that word exists only if the image has at
+    least one column (and the row exists only if it has rows).  Every read of the bitmap is therefore guarded by width > 0."""
+    R = ck.rule(rid, 'in the bitmap import of both region widths, every load from the image\'s pixel data (a pointer derived from pixman_image_get_data) is reached only under a comparison that establishes width > 0 (the value of pixman_image_get_width compared with a constant, taken on the side where it is positive): a 0x3 a1 image has stride 0 and no storage, and the unconditional read of each row\'s first word faults', floor=4)
+    n = 0
+    for u in units(P):
+        for fn, f in sorted(u.functions.items()):
+            data = [c for c in f.calls('pixman_image_get_data')]
+            wid = [c for c in f.calls('pixman_image_get_width')]
+            if not data or not wid:
+                continue
+            W = wid[0]
+            for x in f.insts():
+                if x.op != 'load':
+                    continue
+                roots = common.roots(f, x.a[0])
+                if not any(r[0] == 'call' and r[1] == 'pixman_image_get_data' for r in roots):
+                    continue
+                n += 1; ck.saw(f)
+                ok = False
+                for t, s in f.guard_edges(x.bb.id):
+                    if t.op != 'br' or not t.a:
+                        continue
+                    c, p, ops = f.cond(t.a[0])
+                    if c is None or c.op != 'icmp' or len(ops) != 2:
+                        continue
+                    eff = p if t.d['succ'][0] == s else f.INV.get(p, p)
+                    a0, a1 = ops
+                    if a0[0] == 'c':
+                        a0, a1 = a1, a0; eff = {'slt': 'sgt', 'sgt': 'slt', 'sle': 'sge', 'sge': 'sle'}.get(eff, eff)
+                    if list(f.strip_casts(a0)) == ['v', W.i] and a1[0] == 'c':
+                        k = int(a1[1])
+                        if (eff == 'sgt' and k >= 0) or (eff == 'sge' and k >= 1):
+                            ok = True
+                where = '%s (%s): bitmap read at %s' % (fn, u.name, x.loc())
+                if ok:
+                    ck.ok(R, where, 'under width > 0')
+                else:
+                    ck.violation(R, fn, 'bitmap read without width > 0 (%s)' % _w(u), '%s reads the bitmap at %s on a path where the image width has not been found positive: for an image without pixels (width 0: stride 0, no storage at all) the first word of a row does not exist' % (fn, x.loc()), x.loc())
+    if n == 0:
+        raise AnalysisBroken('%s: no read of bitmap data found in the region units' % rid)
